@@ -752,10 +752,12 @@ class BaseProject(object, metaclass=ABCMeta):
         self.workflow.remove_absence_time_list(self.absence_time_list)
         self.organization.remove_absence_time_list(self.absence_time_list)
 
+        removed_step_count = 0
         for step_time in sorted(self.absence_time_list, reverse=True):
             if step_time < len(self.cost_list):
                 self.cost_list.pop(step_time)
-        self.time = self.time - len(self.absence_time_list)
+                removed_step_count += 1
+        self.time = self.time - removed_step_count
         self.absence_time_list = []
 
     def insert_absence_time_list(self, absence_time_list):
